@@ -1,7 +1,9 @@
 """C19 — workload generators: reproducibility, setters, distinct-qubit idioms, structure."""
 import re
 
-from .. import hir, zone, rpair, rtable
+from fractions import Fraction as Fr
+
+from .. import hir, zone, rpair, rtable, minirust, rngsem, circsem as cs
 from ..controls import fixture
 
 BUILDERS = {
@@ -396,13 +398,279 @@ def graph_state_structure(f):
     return res
 
 
+# ---------------------------------------------------------------- generators explored over every outcome of their random draws (round 2)
+
+_INLINE = ('gate::', 'circuit::', '<gate::', '<circuit::', 'generate::', '<generate::', 'random_graph::')
+
+
+def _call(facts, key, args, host_call=None):
+    it = cs.interp(facts, 400000)
+    it.inline = lambda c: c.startswith(_INLINE)
+    if host_call is not None:
+        base = it.host_call
+
+        def hc(c, e, a):
+            r = host_call(c, e, a)
+            return r if r is not NotImplemented else base(c, e, a)
+        it.host_call = hc
+    return it.local_call(key, args)
+
+
+def _builder(name, rng, **kw):
+    d = {'__struct__': name, 'rng': rng}
+    d.update(kw)
+    return d
+
+
+def ev_random_circuit(facts):
+    """RandomCircuitBuilder::build for qubits 2..4, depth 1 (and depth 2 on 2 qubits), over every draw: qubit arguments distinct and in range,
+    at most `depth` gates, only kinds with non-zero probability, every such kind reachable.  -> {clause: (ok, detail)}, runs"""
+    key = 'generate::RandomCircuitBuilder::build'
+    res = {'distinct-in-range': [True, ''], 'depth': [True, ''], 'kinds': [True, '']}
+    runs = 0
+    probs_all = dict(p_cnot=0.25, p_cz=0.25, p_h=0.125, p_s=0.125, p_t=0.25)
+    probs_some = dict(p_cnot=0.5, p_cz=0.0, p_h=0.25, p_s=0.0, p_t=0.25)
+    kindof = {'p_cnot': 'CNOT', 'p_cz': 'CZ', 'p_h': 'HAD', 'p_s': 'S', 'p_t': 'T'}
+    for probs, floats in ((probs_all, (0.125, 0.375, 0.5625, 0.6875, 0.875)), (probs_some, (0.25, 0.625, 0.875))):
+        allowed = set(kindof[k] for k, v in probs.items() if v > 0)
+        for qubits, depth in ((2, 1), (3, 1), (4, 1), (2, 2)):
+            seen = set()
+            rng = rngsem.Rng(floats=floats)
+            b = _builder('generate::RandomCircuitBuilder', rng, qubits=qubits, depth=depth, **probs)
+            for c, _tr in rngsem.explore(lambda: _call(facts, key, [b]), rng):
+                runs += 1
+                gs = [cs.out_gate(g) for g in c['gates']]
+                for k, qs, _p in gs:
+                    seen.add(k)
+                    if (len(set(qs)) != len(qs) or any(not (0 <= q < qubits) for q in qs)) and res['distinct-in-range'][0]:
+                        res['distinct-in-range'] = [False, 'on %d qubits some draw yields %s%s' % (qubits, k, list(qs))]
+                    if k not in allowed and res['kinds'][0]:
+                        res['kinds'] = [False, 'with probabilities %s some draw yields a %s gate' % (probs, k)]
+                if (len(gs) != depth or c.get('nqubits') != qubits) and res['depth'][0]:
+                    res['depth'] = [False, 'depth %d on %d qubits (probabilities summing to 1): some draw yields %d gates on %s qubits' % (depth, qubits, len(gs), c.get('nqubits'))]
+            if seen != allowed and res['kinds'][0]:
+                res['kinds'] = [False, 'with probabilities %s the kinds that occur over all draws are %s' % (probs, sorted(seen))]
+    return dict((k, tuple(v)) for k, v in res.items()), runs
+
+
+def ev_hidden_shift_parts(facts):
+    """random_clifford_layer and random_ccz for 6, 8, 10 qubits over every draw: arguments pairwise distinct, on the first half, every
+    combination reachable"""
+    res = {}
+    runs = 0
+    for key, arity in (('generate::RandomHiddenShiftCircuitBuilder::random_ccz', 3), ('generate::RandomHiddenShiftCircuitBuilder::random_clifford_layer', 2)):
+        ok, detail = True, ''
+        for qubits in (6, 8, 10):
+            half = qubits // 2
+            rng = rngsem.Rng()
+            b = _builder('generate::RandomHiddenShiftCircuitBuilder', rng, qubits=qubits, clifford_depth=1, n_ccz=1)
+            seen = set()
+
+            def run():
+                c = cs.circuit(qubits, [])
+                _call(facts, key, [b, c])
+                return c
+            for c, _tr in rngsem.explore(run, rng):
+                runs += 1
+                for k, qs, _p in [cs.out_gate(g) for g in c['gates']]:
+                    if (len(set(qs)) != len(qs) or any(not (0 <= q < half) for q in qs)) and ok:
+                        ok, detail = False, 'on %d qubits some draw yields %s%s (arguments must be distinct and below %d)' % (qubits, k, list(qs), half)
+                    if len(qs) == arity:
+                        seen.add(frozenset(qs))
+            import math
+            if ok and len(seen) != math.comb(half, arity):
+                ok, detail = False, 'on %d qubits only %d of the %d %d-element argument sets are reachable' % (qubits, len(seen), math.comb(half, arity), arity)
+        res[key] = (ok, detail)
+    return res, runs
+
+
+def _apply(state, n, kind, qs):
+    """exact action of H / Z / CZ / CCZ on a state given as {basis index: amplitude} scaled by 1/sqrt2^h (h tracked by the caller)"""
+    def bit(x, q):
+        return (x >> (n - 1 - q)) & 1
+    if kind in ('Z', 'CZ', 'CCZ'):
+        return dict((x, -a if all(bit(x, q) for q in qs) else a) for x, a in state.items()), 0
+    if kind == 'HAD':
+        q = qs[0]
+        out = {}
+        for x, a in state.items():
+            x0 = x & ~(1 << (n - 1 - q))
+            x1 = x0 | (1 << (n - 1 - q))
+            out[x0] = out.get(x0, 0) + a
+            out[x1] = out.get(x1, 0) + (-a if bit(x, q) else a)
+        return dict((x, a) for x, a in out.items() if a != 0), 1
+    raise minirust.NoEval('gate %s in a hidden-shift circuit' % kind)
+
+
+def ev_hidden_shift(facts, configs=((1, 0), (0, 1))):
+    """RandomHiddenShiftCircuitBuilder::build on 6 qubits over every draw: the circuit is H;f;H;Z^shift;g;H with g = f moved to the second half,
+    and — computed exactly with integer amplitudes — it maps |0..0> to |shift> with probability one.  -> {clause: (ok, detail)}, runs"""
+    key = 'generate::RandomHiddenShiftCircuitBuilder::build'
+    n = 6
+    res = {'promise': [True, ''], 'shift-pairing': [True, ''], 'layers': [True, '']}
+    runs = 0
+    for cd, nc in configs:
+        rng = rngsem.Rng()
+        b = _builder('generate::RandomHiddenShiftCircuitBuilder', rng, qubits=n, clifford_depth=cd, n_ccz=nc)
+        for r, _tr in rngsem.explore(lambda: _call(facts, key, [b]), rng):
+            runs += 1
+            if not (isinstance(r, tuple) and len(r) == 2):
+                raise minirust.NoEval('build returned %r' % (r,))
+            c, shift = r
+            gs = [cs.out_gate(g) for g in c['gates']]
+            shift = [int(x) for x in shift]
+            had = [('HAD', (q,), 0) for q in range(n)]
+            core = None
+            if len(shift) == n and gs[:n] == had and gs[-n:] == had:
+                mid = gs[n:-n]
+                L = (len(mid) - n - sum(shift))
+                if L >= 0 and L % 2 == 0:
+                    L //= 2
+                    f_, h2, zs, g_ = mid[:L], mid[L:L + n], mid[L + n:L + n + sum(shift)], mid[L + n + sum(shift):]
+                    if h2 == had:
+                        core = (f_, zs, g_)
+            if core is None:
+                if res['layers'][0]:
+                    res['layers'] = [False, 'clifford_depth %d, n_ccz %d: some draw yields a circuit that is not H^n ; f ; H^n ; Z-layer ; g ; H^n with a %d-bit shift (gates: %s, shift %s)' % (cd, nc, n, [(k, q) for k, q, _p in gs][:14], shift)]
+                continue
+            f_, zs, g_ = core
+            if [q for _k, (q,), _p in zs] != [q for q in range(n) if shift[q]] or any(k != 'Z' for k, _q, _p in zs):
+                if res['shift-pairing'][0]:
+                    res['shift-pairing'] = [False, 'the shift string is %s but the Z layer acts on %s' % (shift, [q for _k, q, _p in zs])]
+            half = n // 2
+            want_g = [(k, tuple(q + half for q in qs), p_) for k, qs, p_ in f_[:len(f_) - half]] + f_[len(f_) - half:]
+            if (g_ != want_g or f_[len(f_) - half:] != [('CZ', (q, q + half), 0) for q in range(half)]) and res['layers'][0]:
+                res['layers'] = [False, 'the second oracle is not the first one moved to the second half followed by the same CZ layer: f = %s, g = %s' % ([(k, q) for k, q, _p in f_], [(k, q) for k, q, _p in g_])]
+            # the promise, exactly: amplitudes are integers over sqrt2^h
+            st, h = {0: 1}, 0
+            for k, qs, _p in gs:
+                st, dh = _apply(st, n, k, qs)
+                h += dh
+            target = int(''.join(str(x) for x in shift), 2)
+            if not (list(st.keys()) == [target] and abs(st[target]) ** 2 == 2 ** h) and res['promise'][0]:
+                res['promise'] = [False, 'clifford_depth %d, n_ccz %d: for some draw the circuit does not map |0..0> to |shift> = |%s> with probability one (non-zero amplitudes on %s)' % (cd, nc, ''.join(str(x) for x in shift), sorted(st)[:4])]
+    return dict((k, tuple(v)) for k, v in res.items()), runs
+
+
+def ev_pauli_gadgets(facts):
+    """RandomPauliGadgetCircuitBuilder::build over every draw for small parameters: each gadget is layer ; ParityPhase ; layer-adjoint on distinct
+    qubits in range, weight within bounds (every weight reachable), phase = k/denominator, non-Clifford for even denominators >= 4"""
+    key = 'generate::RandomPauliGadgetCircuitBuilder::build'
+    res = {'gadget-structure': [True, ''], 'weight-range': [True, ''], 'distinct-in-range': [True, ''], 'phase': [True, '']}
+    runs = 0
+    for qubits, depth, lo, hi, denom in ((3, 1, 1, 2, 4), (3, 1, 3, 3, 3), (2, 2, 1, 1, 6), (4, 1, 2, 2, 8), (3, 1, 0, 1, 2)):
+        rng = rngsem.Rng()
+        b = _builder('generate::RandomPauliGadgetCircuitBuilder', rng, qubits=qubits, depth=depth, min_weight=lo, max_weight=hi, phase_denom=denom)
+        weights = set()
+        nums = set()
+        for c, _tr in rngsem.explore(lambda: _call(facts, key, [b]), rng):
+            runs += 1
+            gs = [cs.out_gate(g) for g in c['gates']]
+            pps = [i for i, g in enumerate(gs) if g[0] == 'ParityPhase']
+            tag = 'qubits %d, depth %d, weights %d..=%d, denominator %d' % (qubits, depth, lo, hi, denom)
+            if len(pps) != depth and res['gadget-structure'][0]:
+                res['gadget-structure'] = [False, '%s: some draw yields %d parity-phase gates' % (tag, len(pps))]
+                continue
+            # split into gadgets: greedy — the layer before a parity phase has as many gates as the layer after it
+            pos = 0
+            for gi, i in enumerate(pps):
+                nxt = pps[gi + 1] if gi + 1 < len(pps) else len(gs)
+                k_, qs, ph = gs[i]
+                before = gs[pos:i]
+                m = len(before)
+                after = gs[i + 1:i + 1 + m]
+                pos = i + 1 + m
+                weights.add(len(qs))
+                if (len(set(qs)) != len(qs) or any(not (0 <= q < qubits) for q in qs)) and res['distinct-in-range'][0]:
+                    res['distinct-in-range'] = [False, '%s: some draw yields a gadget on %s' % (tag, list(qs))]
+                if not (lo <= len(qs) <= hi) and res['weight-range'][0]:
+                    res['weight-range'] = [False, '%s: some draw yields a gadget of weight %d' % (tag, len(qs))]
+                kd = ph * denom
+                nums.add(ph)
+                bad_ph = kd.denominator != 1 or ph == 0 or (denom >= 4 and denom % 2 == 0 and ph.denominator <= 2)
+                if bad_ph and res['phase'][0]:
+                    res['phase'] = [False, '%s: some draw yields the phase %s (must be a non-zero multiple of 1/%d%s)' % (tag, ph, denom, ', not a multiple of 1/2' if denom >= 4 and denom % 2 == 0 else '')]
+                # the layer acts on the gadget's qubits only, one basis change per qubit, and is undone afterwards
+                inv = []
+                for k2, q2, p2 in reversed(before):
+                    g2 = cs.gate(k2, q2, p2)
+                    _call(facts, 'gate::Gate::adjoint', [g2])
+                    inv.append(cs.out_gate(g2))
+                okl = after == inv and all(len(q2) == 1 and q2[0] in qs and k2 in ('HAD', 'XPhase') for k2, q2, _p2 in before) and len(set(q2 for _k2, q2, _p2 in before)) == len(before)
+                if not okl and res['gadget-structure'][0]:
+                    res['gadget-structure'] = [False, '%s: some draw yields a gadget whose basis-change layer %s is not undone by %s (or acts outside the gadget)' % (tag, [(k2, q2) for k2, q2, _p in before], [(k2, q2) for k2, q2, _p in after])]
+            if pos != len(gs) and res['gadget-structure'][0]:
+                res['gadget-structure'] = [False, '%s: some draw yields gates outside the gadgets' % tag]
+        if weights != set(range(lo, hi + 1)) and res['weight-range'][0]:
+            res['weight-range'] = [False, 'weights %d..=%d on %d qubits: the weights that occur over all draws are %s' % (lo, hi, qubits, sorted(weights))]
+        want_nums = set(Fr(k, denom) % 2 for k in range(1, 2 * denom) if not (denom >= 4 and denom % 2 == 0 and (Fr(k, denom) % 2).denominator <= 2))
+        if nums != want_nums and res['phase'][0]:
+            res['phase'] = [False, 'denominator %d: the phases that occur over all draws are %s, the admissible ones are %s' % (denom, sorted(str(x) for x in nums), sorted(str(x) for x in want_nums))]
+    return dict((k, tuple(v)) for k, v in res.items()), runs
+
+
+def ev_stabiliser_state(facts):
+    """EquatorialStabilizerStateBuilder::build over every draw for 1..3 qubits on a tracing host graph: one Z spider per output joined by a plain edge,
+    phases multiples of 1/2, Hadamard edges only between different spiders and at most one per pair, outputs in order,
+    scalar sqrt2^(#Hadamard edges - qubits) (which makes the state a unit vector).  -> (ok, detail), runs"""
+    key = 'random_graph::EquatorialStabilizerStateBuilder::build'
+    ok, detail, runs = True, '', 0
+    hedges_seen = {}
+    for n in (1, 2, 3):
+        rng = rngsem.Rng()
+        b = _builder('random_graph::EquatorialStabilizerStateBuilder', rng, qubits=n)
+        hedges_seen[n] = set()
+
+        def run():
+            log = {'v': {}, 'e': [], 'ph': {}, 'out': None, 'pow': []}
+            sc = minirust.Obj('scalar', {'mul_sqrt2_pow': lambda a: log['pow'].append(a[0])}, strict=False)
+
+            def addv(a):
+                i = len(log['v'])
+                log['v'][i] = a[0][1].rsplit('::', 1)[-1] if isinstance(a[0], tuple) else '?'
+                return i
+            g = minirust.Obj('graph', {
+                'add_vertex': addv, 'add_edge': lambda a: log['e'].append((a[0], a[1], 'N')),
+                'add_edge_with_type': lambda a: log['e'].append((a[0], a[1], a[2][1].rsplit('::', 1)[-1] if isinstance(a[2], tuple) else '?')),
+                'set_phase': lambda a: log['ph'].__setitem__(a[0], a[1]), 'set_outputs': lambda a: log.__setitem__('out', list(a[0])),
+                'scalar_mut': lambda a: sc, 'num_vertices': lambda a: len(log['v']),
+            }, strict=False)
+
+            def hc(c, e, a):
+                if c.endswith('GraphLike::new') or (c.endswith('::new') and not e['args'] and (e.get('ty') or '') in ('G', 'impl GraphLike')):
+                    return g
+                return NotImplemented
+            r = _call(facts, key, [b], host_call=hc)
+            if r is not g:
+                raise minirust.NoEval('build returned %r' % (r,))
+            return log
+        for log, _tr in rngsem.explore(run, rng):
+            runs += 1
+            outs = log['out'] or []
+            spiders = [v for v, t in log['v'].items() if t == 'Z']
+            plain = [(a, b_) for a, b_, t in log['e'] if t == 'N']
+            had = [frozenset((a, b_)) for a, b_, t in log['e'] if t == 'H']
+            good = (len(outs) == n and len(spiders) == n and all(log['v'].get(o) == 'B' for o in outs) and len(set(outs)) == n
+                    and sorted(frozenset(p_) for p_ in plain) == sorted(frozenset((s_, o)) for s_, o in zip(sorted(spiders), outs)) if True else False)
+            good = good and all(len(h) == 2 and h <= set(spiders) for h in had) and len(set(had)) == len(had) and len(log['e']) == len(plain) + len(had)
+            good = good and all(isinstance(log['ph'].get(s_, cs.Ph(0)), cs.Ph) and log['ph'].get(s_, cs.Ph(0)).v.denominator <= 2 for s_ in spiders)
+            good = good and log['pow'] == [len(had) - n]
+            hedges_seen[n].add(frozenset(had))
+            if not good and ok:
+                ok, detail = False, ('on %d qubits some draw yields outputs %s, spiders %s, plain edges %s, Hadamard edges %s, phases %s and the scalar sqrt2^%s (must be one spider per output, simple Hadamard edges between spiders, '
+                                     'scalar sqrt2^(#Hadamard edges - qubits))' % (n, outs, spiders, plain, [sorted(h) for h in had], {k: str(v.v) if isinstance(v, cs.Ph) else v for k, v in log['ph'].items()}, log['pow']))
+        if ok and len(hedges_seen[n]) != 2 ** (n * (n - 1) // 2):
+            ok, detail = False, 'on %d qubits only %d of the %d edge sets are reachable' % (n, len(hedges_seen[n]), 2 ** (n * (n - 1) // 2))
+    return (ok, detail), runs
+
+
 def run(ck):
     facts = ck.facts
     ck.decided('D1 reproducibility: every random draw reachable from a seeded builder uses the builder\'s own rng field, no other entropy/time/env source and no RandomState iteration is reachable, seed() installs seed_from_u64 of its argument',
                'D2 every field setter writes the field of its own name from its argument and nothing else; weight() writes both bounds',
                'D3 distinct qubit arguments: the 2-way and 3-way index-shifting idioms are proved pairwise distinct and in range by a zone-domain abstract interpretation; the Pauli-gadget qubits are drawn without replacement from 0..qubits',
                'D4 structure: hidden shift is H;f;H;Z^s;g;H with shift.push(1) exactly where a Z is pushed and g a late copy of f with the same CZ layer; Pauli gadgets are lc;ParityPhase(phase_num/phase_denom);lc-adjoint with weight from min..=max; graph-state scalar exponent is #H-edges - #qubits')
-    ck.not_decided('the hidden-shift promise itself', 'unit norm of the stabiliser state', 'non-Clifford numerator selection arithmetic', 'gate-kind probabilities')
+    ck.not_decided('the hidden-shift promise beyond 6 qubits and the explored depths', 'stabiliser states beyond 3 qubits', 'gate-kind probabilities (only which kinds can occur)', 'the bit stream of StdRng itself')
     # D1
     nb = 0
     for adt, ms in BUILDERS.items():
@@ -435,34 +703,79 @@ def run(ck):
     w = setter_check(facts, None, wk, 'weight')
     ck.fn(wk)
     ck.ob('R-SETTER', wk, sorted(w or []) == [('max_weight', True), ('min_weight', True)], ck.site(wk), 'weight() must set both min_weight and max_weight to its argument; writes %s' % w)
-    # D3
-    nd = 0
-    for key in ('generate::RandomCircuitBuilder::build', 'generate::RandomHiddenShiftCircuitBuilder::random_clifford_layer', 'generate::RandomHiddenShiftCircuitBuilder::random_ccz'):
-        f = ck.fn(key)
-        for i, (node, ok, why) in enumerate(distinct_sites(f)):
-            nd += 1
-            ck.ob('E3-distinct', '%s/site-%d' % (key, i), bool(ok), ck.site(key, node), 'cannot prove the qubit arguments of `%s` pairwise distinct and in range: %s' % (hir.pp(node)[:60], why),
-                  sample={'site': hir.pp(node)[:70], 'proved': bool(ok)})
-    ck.floor('E3-distinct', nd, 4)
+    # D3 / D4 (round 2): every generator is explored over all outcomes of its random draws for small parameters; the pre-round-2 readings
+    # (zone-domain proof of the index-shift idiom, syntactic structure) remain as three-valued fallback when the evaluator declines
+    total_runs = 0
     pk = 'generate::RandomPauliGadgetCircuitBuilder::build'
-    pd = pool_draw(ck.fn(pk))
-    for i, (ok, node) in enumerate(pd):
-        ck.ob('R-IDIOM-pool', '%s/draw-%d' % (pk, i), ok, ck.site(pk, node), 'qubits must be drawn without replacement from a pool initialised with 0..self.qubits')
-    ck.floor('R-IDIOM-pool', len(pd), 1)
-    # D4
     hk = 'generate::RandomHiddenShiftCircuitBuilder::build'
-    for name, ok, why in hidden_shift_structure(ck.fn(hk)):
-        ck.ob('R-STRUCT', hk + '/' + name, ok, ck.site(hk), why)
-    ok, why, st = nonclifford_phase_rule(ck.fn(pk))
-    if ok is None:
-        ck.violation('R-RANGE-nonclifford', pk + '/numerator', ck.site(pk), why)
-    else:
-        ck.ob('R-RANGE-nonclifford', pk + '/numerator', ok, ck.site(pk), why, sample=st)
-    for name, ok, why in pauli_gadget_structure(ck.fn(pk)):
-        ck.ob('R-STRUCT', pk + '/' + name, ok, ck.site(pk), why)
     gk = 'random_graph::EquatorialStabilizerStateBuilder::build'
-    for name, ok, why in graph_state_structure(ck.fn(gk)):
-        ck.ob('R-STRUCT', gk + '/' + name, ok, ck.site(gk), why)
+    rk = 'generate::RandomCircuitBuilder::build'
+    for k_ in (pk, hk, gk, rk, 'generate::RandomHiddenShiftCircuitBuilder::random_clifford_layer', 'generate::RandomHiddenShiftCircuitBuilder::random_ccz'):
+        ck.fn(k_)
+    DECL = cs.DECLINED
+    try:
+        r_, n_ = ev_random_circuit(facts)
+        total_runs += n_
+        for name, (ok, detail) in sorted(r_.items()):
+            ck.ob('E3-distinct' if name == 'distinct-in-range' else 'R-STRUCT', '%s/%s' % (rk, name), ok, ck.site(rk), 'RandomCircuitBuilder::build explored over %d outcomes of its draws: %s' % (n_, detail), sample={'outcomes': n_})
+    except minirust.Panics as ex:
+        ck.ob('E3-distinct', rk + '/no-panic', False, ck.site(rk), 'for admissible parameters some outcome of the random draws makes the generator panic: %s' % ex)
+    except DECL as ex:
+        ck.note('RandomCircuitBuilder::build: the evaluator declined (%s); zone-domain reading used' % ex)
+        for i, (node, ok, why) in enumerate(distinct_sites(ck.fn(rk))):
+            ck.ob3('E3-distinct', '%s/site-%d' % (rk, i), True if ok else None, ck.site(rk, node), 'build is not evaluable (%s) and the qubit arguments of `%s` could not be proved pairwise distinct and in range: %s' % (ex, hir.pp(node)[:60], why))
+    try:
+        r_, n_ = ev_hidden_shift_parts(facts)
+        total_runs += n_
+        for key, (ok, detail) in sorted(r_.items()):
+            ck.ob('E3-distinct', '%s/distinct-in-range' % key, ok, ck.site(key), '%s explored over every outcome of its draws: %s' % (key.rsplit('::', 1)[1], detail))
+    except minirust.Panics as ex:
+        ck.ob('E3-distinct', hk + '/no-panic', False, ck.site(hk), 'for admissible parameters some outcome of the random draws makes the generator panic: %s' % ex)
+    except DECL as ex:
+        ck.note('hidden-shift layers: the evaluator declined (%s); zone-domain reading used' % ex)
+        for key in ('generate::RandomHiddenShiftCircuitBuilder::random_clifford_layer', 'generate::RandomHiddenShiftCircuitBuilder::random_ccz'):
+            for i, (node, ok, why) in enumerate(distinct_sites(ck.fn(key))):
+                ck.ob3('E3-distinct', '%s/site-%d' % (key, i), True if ok else None, ck.site(key, node), '%s is not evaluable (%s) and the qubit arguments of `%s` could not be proved pairwise distinct and in range: %s' % (key, ex, hir.pp(node)[:60], why))
+    try:
+        r_, n_ = ev_hidden_shift(facts, ((1, 0), (0, 1)) if ck.tier != 'thorough' else ((1, 0), (0, 1), (2, 0), (1, 1)))
+        total_runs += n_
+        for name, (ok, detail) in sorted(r_.items()):
+            ck.ob('R-STRUCT', '%s/%s' % (hk, name), ok, ck.site(hk), 'RandomHiddenShiftCircuitBuilder::build on 6 qubits explored over %d outcomes of its draws: %s' % (n_, detail), sample={'outcomes': n_})
+    except minirust.Panics as ex:
+        ck.ob('R-STRUCT', hk + '/no-panic', False, ck.site(hk), 'for admissible parameters some outcome of the random draws makes the generator panic: %s' % ex)
+    except DECL as ex:
+        ck.note('RandomHiddenShiftCircuitBuilder::build: the evaluator declined (%s); syntactic structure used' % ex)
+        for name, ok, why in hidden_shift_structure(ck.fn(hk)):
+            ck.ob3('R-STRUCT', hk + '/' + name, True if ok else None, ck.site(hk), 'build is not evaluable (%s) and not of the recognised structure: %s' % (ex, why))
+    try:
+        r_, n_ = ev_pauli_gadgets(facts)
+        total_runs += n_
+        for name, (ok, detail) in sorted(r_.items()):
+            rule = {'distinct-in-range': 'R-IDIOM-pool', 'phase': 'R-RANGE-nonclifford'}.get(name, 'R-STRUCT')
+            ck.ob(rule, '%s/%s' % (pk, name), ok, ck.site(pk), 'RandomPauliGadgetCircuitBuilder::build explored over %d outcomes of its draws: %s' % (n_, detail), sample={'outcomes': n_})
+    except minirust.Panics as ex:
+        ck.ob('R-STRUCT', pk + '/no-panic', False, ck.site(pk), 'for admissible parameters some outcome of the random draws makes the generator panic: %s' % ex)
+    except DECL as ex:
+        ck.note('RandomPauliGadgetCircuitBuilder::build: the evaluator declined (%s); syntactic readings used' % ex)
+        pd = pool_draw(ck.fn(pk))
+        for i, (ok, node) in enumerate(pd):
+            ck.ob3('R-IDIOM-pool', '%s/draw-%d' % (pk, i), True if ok else None, ck.site(pk, node), 'build is not evaluable (%s) and the draw-without-replacement idiom was not recognised' % ex)
+        ok, why, st = nonclifford_phase_rule(ck.fn(pk))
+        ck.ob3('R-RANGE-nonclifford', pk + '/numerator', ok, ck.site(pk), why, sample=st)
+        for name, ok, why in pauli_gadget_structure(ck.fn(pk)):
+            ck.ob3('R-STRUCT', pk + '/' + name, True if ok else None, ck.site(pk), 'build is not evaluable (%s) and not of the recognised structure: %s' % (ex, why))
+    try:
+        (ok, detail), n_ = ev_stabiliser_state(facts)
+        total_runs += n_
+        ck.ob('R-STRUCT', gk + '/unit-vector-structure', ok, ck.site(gk), 'EquatorialStabilizerStateBuilder::build explored over %d outcomes of its draws: %s' % (n_, detail), sample={'outcomes': n_})
+    except minirust.Panics as ex:
+        ck.ob('R-STRUCT', gk + '/no-panic', False, ck.site(gk), 'for admissible parameters some outcome of the random draws makes the generator panic: %s' % ex)
+    except DECL as ex:
+        ck.note('EquatorialStabilizerStateBuilder::build: the evaluator declined (%s); syntactic structure used' % ex)
+        for name, ok, why in graph_state_structure(ck.fn(gk)):
+            ck.ob3('R-STRUCT', gk + '/' + name, True if ok else None, ck.site(gk), 'build is not evaluable (%s) and not of the recognised structure: %s' % (ex, why))
+    ck.floor('E3-explored-outcomes', total_runs, 2000)
+    ck.note('generators: %d outcomes of random draws explored' % total_runs)
     # positive controls
     fx = fixture()
     r, _d, _n = d1_det(fx, 'generate::RandomCircuitBuilder::build')
